@@ -51,3 +51,23 @@ def witness_of(files, mode, config=None, extra=None):
     if extra:
         w.update(extra)
     return w
+
+
+def write_tauri_conf(root, src_rel="src-tauri", out_rel="gen", mode="none", extra=None, other=None):
+    """tauri.conf.json with a plugins.typegen section (camelCase keys) in the project root"""
+    tg = {"projectPath": src_rel, "outputPath": out_rel, "validationLibrary": mode}
+    if extra:
+        tg.update(extra)
+    doc = {"productName": "app", "version": "0.1.0", "plugins": {"typegen": tg}}
+    if other:
+        doc.update(other)
+    with open(os.path.join(root, "tauri.conf.json"), "w") as f:
+        json.dump(doc, f, indent=2)
+
+
+def build_generate(drv, root, hash_seed=None, timeout=60, traced=False):
+    """the build-script path: BuildSystem::generate_at_build_time() through the driver, cwd = project root"""
+    if traced:
+        from . import fsmon
+        return fsmon.run_traced([drv, "build"], cwd=root, hash_seed=hash_seed, timeout=timeout)
+    return common.run([drv, "build"], cwd=root, hash_seed=hash_seed, timeout=timeout), None
